@@ -9,27 +9,33 @@ import TxdbusModel.Net.OldBus
 
 Model: `TxdbusModel/Net/Compose.lean` - N clients and the bus at message level; the scheduler is the
 list of steps (`call`, `toBus`, `toClient`, `resolve`).  The behaviour of every exported method
-invocation is part of the step that triggers it, so the theorems quantify over ALL worlds (exported
-declarations, encodability, validator), ALL numbers of clients, ALL calls, ALL behaviours and ALL
-schedules; there is no bound on anything.  Quiescence (all queues empty, no unfired Deferred) replaces
-a fairness assumption.
+invocation is part of the step that triggers it, so the theorems quantify over all worlds (exported class
+chains and declarations, encodability, validator), all numbers of clients, all calls, all behaviours of the
+forms `now value | now raised | deferred` and all schedules; nothing is bounded.  Quiescence (all queues
+empty, no unfired Deferred) replaces a fairness assumption.
 
-* `link_refinement`       a byte FIFO cut into arbitrary reads, framed and parsed, is a FIFO of messages
-                          (from the codec laws proved by C04 `binary_partition_independent`,
-                          `frames_of_messages` and C03 `parse_marshal`; see Proofs/Net/Link.lean)
-* `call_stage_invariant`  in every reachable state every issued call holds exactly one token (one of
-                          seven stages) and every item in every queue belongs to an issued call and
-                          sits where that call's record says; replies carry the logged answer
-* `C11_end_to_end`        in every quiescent reachable state every issued call to an attached client is
-                          completed exactly once, answered exactly once, its completion is the
-                          conversion of that answer; it was invoked exactly once on the exporter with
-                          equal arguments iff the exporter's declaration accepts it
-* `quiescence_reachable`, `C11_completion_always_reachable`   from every state some schedule reaches quiescence
-                          (no message or Deferred can get stuck), hence every issued call can be completed
-* `C11_returns_what_it_returned`   what that completion is, in the words of the property: the returned
-                          value / the list of returned values / None, or RemoteError mirroring the
-                          exception (and the two documented conventions: a single struct comes back
-                          wrapped in a list, an invalid error name is replaced)
+What is proved about the MODEL, in full:
+* `call_stage_invariant`, `call_in_exactly_one_stage`, `queues_hold_only_issued_calls`
+* `C11_end_to_end`, `quiescence_reachable`, `C11_completion_always_reachable`
+* `agreeing_proxy_accepted` - the lemma joining the proxy rule with the exporter's dispatch (incl. the
+  documented binding order of `executeMethod`), `issued_from_call_steps`, `result_from_step`
+* `C11_call_through_agreeing_proxy` - the headline: a call through an agreeing proxy runs the bound function
+  exactly once with equal arguments and completes exactly once with the conversion of what a step of the
+  schedule gave as its result (cannot hold in a model whose dispatch refuses the call)
+* `C11_returns_what_it_returned` - that conversion, clause by clause
+
+What is proved about the LINK (bytes -> messages):
+* `link_refinement` - abstractly, for every codec with the three laws;
+* `link_refinement_framing_laws`, `link_refinement_txdbus_framing` - the laws hold for C04's model of the
+  framing, and C04's code model `Proto.run` of `dataReceived` delivers exactly the well-formed messages written,
+  however the bytes are cut (composition of C04 `binary_partition_independent` / `frames_of_messages`).
+
+What is NOT a theorem here (PARTIAL with respect to the statement's wording; see notes/C11.md):
+* the parse half of the link (C03 `marshal_wellformed`, `parse_marshal`) is cited, not composed - values are
+  abstract in this model; there is no byte-level network with a simulation theorem onto the message-level one;
+  the tie is the correspondence check, which cuts the real byte streams arbitrarily;
+* "discovered by introspection": that an introspected proxy AGREES with the exporter is C15's round trip; here
+  `Proxy.AgreesWith` is a hypothesis, checked per run by the harness on the real proxy objects.
 -/
 namespace Txdbus.Net
 
